@@ -110,10 +110,25 @@ def parse_type(t):
     return ("obj", t)
 
 
+_tup_sorts: Dict[str, Any] = {}
+
+
+def tup_sort(tys):
+    sorts = [sort_of(t) for t in tys]
+    key = "Tup<" + ",".join(str(x) for x in sorts) + ">"
+    if key not in _tup_sorts:
+        d = z3.Datatype(key)
+        d.declare("mk", *[(f"t{i}", srt) for i, srt in enumerate(sorts)])
+        _tup_sorts[key] = d.create()
+    return _tup_sorts[key]
+
+
 def sort_of(t):
     """z3 sort of a value of type t when stored inside an array / datatype."""
     if isinstance(t, str):
         return BASE_SORTS[t]
+    if t[0] == "tup":
+        return tup_sort(t[1:])
     if t[0] in ("seq", "list"):
         return seq_sort(sort_of(t[1]))
     if t[0] == "set":
@@ -263,9 +278,14 @@ class SOpaque(SV):     # a value we do not model (messages, ...)
 
 
 @dataclass
-class STuple(SV):      # a small heterogeneous tuple of known length (e.g. `return dmax, order`)
+class STuple(SV):      # a small heterogeneous tuple of known length (e.g. `return dmax, order`, `(edge.id, ids)`)
     items: Any
     ty: Any = "tuple"
+
+    def __post_init__(self):
+        tys = [getattr(v, "ty", None) for v in self.items]
+        if all(isinstance(v, (SPrim, SSeq)) and v.ty is not None and getattr(v, "elem", 0) is not None for v in self.items):
+            self.ty = ("tup",) + tuple(tys)        # a value type: can be stored in sets / lists / dicts
 
 
 Obj = z3.DeclareSort("Obj")      # identity of objects whose class is not modelled
@@ -300,6 +320,9 @@ def unpack_seq(elem_ty, term) -> SSeq:
 
 def wrap(ty, term) -> SV:
     """Wrap a z3 term of sort_of(ty) as a symbolic value."""
+    if isinstance(ty, tuple) and ty[0] == "tup":
+        T = tup_sort(ty[1:])
+        return STuple([wrap(t, getattr(T, f"t{i}")(term)) for i, t in enumerate(ty[1:])])
     if isinstance(ty, tuple) and ty[0] in ("seq", "list"):
         return unpack_seq(ty[1], term)
     if isinstance(ty, tuple) and ty[0] == "set":
@@ -313,6 +336,8 @@ def term_of(v: SV):
     if isinstance(v, SSeq): return v.packed()
     if isinstance(v, SSetV): return v.mem
     if isinstance(v, SNone): return Id.NoneId
+    if isinstance(v, STuple) and isinstance(v.ty, tuple):
+        return tup_sort(v.ty[1:]).mk(*[term_of(x) for x in v.items])
     raise TypeError(f"no term for {v}")
 
 
